@@ -18,7 +18,8 @@ if [ "$1" = "--reverse" ]; then
   done
   NAME="reverse-of-$2"; shift 2
 else
-  (cd "$SCR" && patch -p1 -s < "$1") || { echo "SKIP $1 does not apply"; exit 3; }
+  PATCH="$(cd "$(dirname "$1")" && pwd)/$(basename "$1")"
+  (cd "$SCR" && patch -p1 -s < "$PATCH") || { echo "SKIP $1 does not apply"; exit 3; }
   NAME="$(basename "$1")"; shift
 fi
 export GOFLAGS=-mod=mod GOPROXY=off GOSUMDB=off GOTOOLCHAIN=local
